@@ -45,7 +45,8 @@ def plan(tier):
 
 @st.composite
 def cases(draw):
-    ops, G, info = gen.gen_dag_model(draw, ncells=(3, 7), items=draw(st.booleans()), handled=False)
+    ops, G, info = gen.gen_dag_model(draw, ncells=(3, 7), items=draw(st.booleans()), handled=False,
+                                     none_values=draw(st.booleans()))
     cells = info["cells"]
     hist = []
     # optional inputs
@@ -182,8 +183,45 @@ def run_one(case, step, out):
     return None, ("nt" if nt else "t", n)
 
 
+def enumerate_cases(tier, seed):
+    # one target whose evaluation enters thousands of elements (nothing may be dropped from the trace)
+    for n, step in ((6000, 2500), (6000, 100000)) + (((15000, 700),) if tier == "thorough" else ()):
+        yield {"kind": "big", "n": n, "step": step, "ops": []}
+
+
+def run_big(case, out):
+    reset_session()
+    n, step = case["n"], case["step"]
+    m = mx.new_model("B")
+    s = m.new_space("S")
+    s.new_cells("c", "lambda x: c(x - 1) + 1 if x > 0 else 0")
+    s.new_cells("t", "lambda: c(%d) + 5" % n)
+    mx.set_recursion(100000)
+    try:
+        target = s.t.node()
+        actions = m.generate_actions([target], step_size=step)
+        left = len(s.c) + len(s.t)
+        if left:
+            return out.fail("generate-leaves-values", "generate_actions on a chain of %d elements left %d values" % (n, left))
+        calc = [nd for a in actions if a[0] == "calc" for nd in a[1]]
+        if len(calc) != len(set(calc)) or len(calc) != n + 2:
+            return out.fail("calc-steps", "chain of %d elements + target: %d nodes in calc steps (%d distinct), expected %d" % (
+                n, len(calc), len(set(calc)), n + 2))
+        m.execute_actions(actions)
+        if dict(s.t) != {(): n + 5} or len(s.c) != 0:
+            return out.fail("target-value", "after execute_actions: t holds %r (expected {(): %d}), c holds %d values" % (
+                dict(s.t), n + 5, len(s.c)))
+    finally:
+        mx.set_recursion(400)
+    out.nontrivial = True
+    out.label("big_chain")
+    return out
+
+
 def run_case(case):
     out = Outcome()
+    if case.get("kind") == "big":
+        return run_big(case, out)
     if not case.get("targets"):
         out.discard = True
         return out
